@@ -542,6 +542,14 @@ func (h *Host) SetReject(b bool) {
 	}
 }
 
+// SetRejectNew makes the host refuse new connections while keeping the established ones open.
+func (h *Host) SetRejectNew() {
+	h.mu.Lock()
+	h.reject = true
+	h.Accepts = nil
+	h.mu.Unlock()
+}
+
 func (h *Host) Rejecting() bool { h.mu.Lock(); defer h.mu.Unlock(); return h.reject }
 
 func (h *Host) Up() bool { h.mu.Lock(); defer h.mu.Unlock(); return h.up }
